@@ -367,6 +367,14 @@ func (t *taintEngine) propagate() {
 							t.mark(val, why)
 						}
 					}
+					// z.Set(x), z.Add(x, y), ...: the receiver of a math/big
+					// method is overwritten with a number computed from the
+					// arguments (acc := new(big.Rat); acc.Set(x); acc.Inv(acc))
+					if cp == "math/big" && callee.Signature.Recv() != nil && len(c.Args) > 1 && c.Args[0] != v && isBig(c.Args[0].Type()) {
+						if _, isPtr := c.Args[0].Type().(*types.Pointer); isPtr {
+							t.mark(c.Args[0], why)
+						}
+					}
 					// (positions computed from a script-controlled string by
 					// strings.Index* / utf8.Decode* are deliberately not
 					// followed: the eight `i := strings.Index(s, sep); s[:i],
